@@ -161,6 +161,7 @@ func runC01(c *Ctx) {
 			"lockedMap.Expiration":    "yields only a time (C07)",
 			"lockedMap.Clear":         "whole-map drain",
 			"shardedMap.IterValues$1": "enumeration, no key in scope",
+			"shardedMap.IterValues":   "enumeration, no key in scope (closure inlined)",
 			"newLockedMap":            "constructor",
 		}
 		for _, fn := range P.SrcFuncs {
